@@ -14,6 +14,7 @@ import (
 	"fmt"
 	"os"
 	"os/signal"
+	"path/filepath"
 	"strings"
 	"syscall"
 	"time"
@@ -570,6 +571,10 @@ func (s *sim) handleCisco(n int, line, kind string) bool {
 	case ios && (lookup == "term len 0" || lookup == "term width 512"):
 	case !ios && lookup == "write term", ios && lookup == "sh run":
 		out += s.running()
+		// what the tool was given to read (for the harness)
+		if s.plan.Transcript != "" {
+			os.WriteFile(filepath.Join(filepath.Dir(s.plan.Transcript), "config-sent"), []byte(s.running()), 0644)
+		}
 	case lookup == "write memory" && s.mode == "enable":
 		res = "save"
 		s.saved = s.running()
